@@ -823,6 +823,10 @@ func (c *Client) statsReporter(closed <-chan struct{}, wg *sync.WaitGroup, stats
 
 	var sc StatsCommand
 
+	// when the last report went out: messages that are not update commands must not
+	// postpone the periodic report
+	lastReport := time.Now()
+
 	for {
 
 		// TODO consider this scheme again
@@ -877,7 +881,7 @@ func (c *Client) statsReporter(closed <-chan struct{}, wg *sync.WaitGroup, stats
 
 			log.WithField("doUpdate", doUpdate).Trace("statsReporter do update?")
 
-			if !doUpdate { //don't send updated stats
+			if !doUpdate && time.Since(lastReport) < statsEvery { //don't send updated stats, unless the periodic report is due
 				continue
 			}
 
@@ -965,6 +969,7 @@ func (c *Client) statsReporter(closed <-chan struct{}, wg *sync.WaitGroup, stats
 		}
 		// broadcast stats back to the hub (i.e. and anyone listening to this topic)
 		c.hub.broadcast <- message{sender: *c, data: reportsData, mt: websocket.TextMessage}
+		lastReport = time.Now()
 
 	}
 }
